@@ -1,6 +1,7 @@
 """C01 — Optimal status implies first-order optimality of the user's own problem."""
 from ..gen import Gen
 from ..unit import run_unit
+from .. import camp_props
 from ..units.loop import Loop
 from ..units.numeric import IterateUnit, Transform
 
@@ -14,3 +15,4 @@ def run(rep, tier, seed, scratch):
     g = Gen(seed)
     for u in (Transform(), IterateUnit(), Loop()):
         run_unit(rep, u, u.gen(g, tier), scratch)
+    camp_props.run_single(rep, 'C01', tier, seed, 40, 300, allow={'iteration_limit': 400}, families=['convex_qp', 'convex_qp', 'nonlinear'])
